@@ -135,11 +135,12 @@ class ValGen:
     """generates one value of a type tree; if bad_at is not None, the bad_at-th text/fd leaf visited gets an
     unencodable content (containers on the way are forced non-empty)"""
 
-    def __init__(self, r, bad_at=None, sizes=(0, 1, 1, 2, 2, 3)):
+    def __init__(self, r, bad_at=None, sizes=(0, 1, 1, 2, 2, 3), dict_sizes=None):
         self.r = r
         self.bad_at = bad_at
         self.seen = 0
         self.sizes = sizes
+        self.dict_sizes = dict_sizes or sizes
         self.made_bad = False
 
     def gen(self, t):
@@ -167,7 +168,7 @@ class ValGen:
                 out += self.gen(f)
             return out
         if k == "e":
-            n = r.choice(self.sizes)
+            n = r.choice(self.dict_sizes)
             if self.bad_at is not None and not self.made_bad and (t[1] in "sogh" or count_leaves(t[2], "sogh")):
                 n = max(n, 1)
             entries = []
@@ -189,14 +190,14 @@ class ValGen:
         raise ValueError(t)
 
 
-def gen_value(r, t, bad=False):
+def gen_value(r, t, bad=False, dict_sizes=None):
     nleaves = count_leaves(t, "sogh")
     if bad and nleaves:
         # which leaf: the container sizes are random, so pick among the first few visited
-        g = ValGen(r, bad_at=r.randrange(min(nleaves, 3)))
+        g = ValGen(r, bad_at=r.randrange(min(nleaves, 3)), dict_sizes=dict_sizes)
         toks = g.gen(t)
         return toks, g.made_bad
-    return ValGen(r).gen(t), False
+    return ValGen(r, dict_sizes=dict_sizes).gen(t), False
 
 
 # ----------------------------------------------------------------------------- corruptions of encodings
